@@ -8,6 +8,7 @@ package operationapplier
 
 import (
 	"fmt"
+	"math/big"
 
 	"github.com/pkg/errors"
 
@@ -366,21 +367,25 @@ func (s *Applier) verifyAnchoringTimeRange(from, until int64, anchor uint64) err
 		return nil
 	}
 
-	if from > int64(anchor) {
+	// the bounds are signed, the anchoring time is unsigned and the default expiry is a sum: compare them as the
+	// integers they stand for, not after conversions that wrap around
+	anchorTime := new(big.Int).SetUint64(anchor)
+
+	if big.NewInt(from).Cmp(anchorTime) > 0 {
 		return fmt.Errorf("anchor from time is greater then anchoring time")
 	}
 
-	if s.getAnchorUntil(from, until) < int64(anchor) {
+	if s.getAnchorUntil(from, until).Cmp(anchorTime) < 0 {
 		return fmt.Errorf("anchor until time is less then anchoring time")
 	}
 
 	return nil
 }
 
-func (s *Applier) getAnchorUntil(from, until int64) int64 {
+func (s *Applier) getAnchorUntil(from, until int64) *big.Int {
 	if from != 0 && until == 0 {
-		return from + int64(s.MaxOperationTimeDelta)
+		return new(big.Int).Add(big.NewInt(from), new(big.Int).SetUint64(s.MaxOperationTimeDelta))
 	}
 
-	return until
+	return big.NewInt(until)
 }
